@@ -19,7 +19,7 @@ from qstatic.alg import Poly, SQ, P
 from qstatic.dom_sym import sym_quat, arrays_same, first_diff, mk, SymArr
 from qstatic.interp import PathExplorer, RepoRaise, ModelError
 from .common import new_interp, ref_matmul, ref_hermitian, run_guarded, short
-from .common_nc import cond_parts
+from .common_nc import cond_parts, cond_canon
 
 LEVEL = "other"
 EXPLANATION = ("hessenbergize / check_hessenberg / is_hessenberg are interpreted over arrays of generic symbolic quaternions; "
@@ -49,7 +49,7 @@ def run(ctx):
         ctx.touch(f)
     ctx.assume("householder_matrix returns a unitary reflector (numerical clause, not decided); quat_matmat/quat_hermitian "
                "are interpreted from source (C01)", "python ast reflects the code that runs")
-    sizes = [1, 2, 3, 4] + ([5] if ctx.thorough else [])
+    sizes = [1, 2, 3, 4]
     ctx.notes["sizes"] = sizes
 
     # ------------------------------------------------------------------ D1
@@ -156,38 +156,26 @@ def run(ctx):
                 if not arrays_same(Hm, Hb):
                     ok, why = False, "the argument is modified"
                     break
-                # reconstruct per-entry decisions
-                atoms_of = {}
-                for cond, dec in log:
-                    parts = cond_parts(cond)
-                    if parts is None:
-                        ok, why = False, "unexpected condition"
-                        break
-                    op, lhs, rhs = parts
-                    la = P(lhs).atoms()
-                    ent = None
-                    for a in la:
-                        if isinstance(a, tuple) and a[0] == "abs":
-                            pass
-                    # identify the entry from the symbols inside the abs atom: search symbols h(i,j,p)
-                    txt = repr(lhs)
-                    found = [(i, j, p) for i in range(r) for j in range(c) for p in range(4) if f"h({i},{j},{p})" in txt or f"('h', {i}, {j}, {p})" in txt]
-                    if len(found) != 1:
-                        # fall back: search through atom payloads
-                        found = _find_entry(lhs, r, c)
-                    if len(found) != 1:
-                        ok, why = False, "a tolerance test does not concern a single component of a single entry"
-                        break
-                    i, j, p = found[0]
-                    seen_entries.add((i, j))
-                    atoms_of.setdefault((i, j), []).append((op, p, dec))
-                if not ok:
+                # facts implied by the path condition, per component (i, j, p): 'small' = |c| <= atol, 'large' = |c| > atol
+                facts, groups, bad = _facts(log, r, c)
+                if bad:
+                    ok, why = False, bad
                     break
+                for (i, j, p) in facts:
+                    seen_entries.add((i, j))
+                for kind, comps in groups:
+                    seen_entries.update((i, j) for (i, j, p) in comps)
+                below_comps = {(i, j, p) for (i, j) in below for p in range(4)}
+
+                def some_large(comps):
+                    comps = set(comps)
+                    return any(facts.get(x) == "large" for x in comps) or any(k == "some-large" and set(g) <= comps for k, g in groups)
+
                 if nm == "check_hessenberg":
                     for (i, j) in [(i, j) for i in range(r) for j in range(c)]:
                         zeroed = isinstance(res[i, j], SQ) and res[i, j].is_zero()
-                        tests = atoms_of.get((i, j), [])
-                        all_small = len({p for op, p, dec in tests if op == "le" and dec}) == 4
+                        mine = [(i, j, p) for p in range(4)]
+                        all_small = all(facts.get(x) == "small" for x in mine)
                         if zeroed and not ((i, j) in below and all_small):
                             ok, why = False, f"entry ({i},{j}) is zeroed without all four components tested <= atol (or outside i > j+1)"
                             break
@@ -197,13 +185,18 @@ def run(ctx):
                         if (i, j) in below and all_small and not zeroed:
                             ok, why = False, f"entry ({i},{j}) tested negligible but not cleaned"
                             break
+                        if (i, j) in below and not zeroed and not some_large(mine):
+                            ok, why = False, f"entry ({i},{j}) is left in place although no component was found to exceed atol"
+                            break
                 else:
-                    exceeded = any(op == "gt" and dec for tests in atoms_of.values() for op, p, dec in tests)
-                    if (res is False) != exceeded or not isinstance(res, bool):
-                        ok, why = False, "is_hessenberg result does not match the outcome of its component tests"
+                    if not isinstance(res, bool):
+                        ok, why = False, "is_hessenberg does not return a bool"
                         break
-                    if any(e not in below for e in atoms_of):
-                        ok, why = False, "is_hessenberg inspects an entry outside i > j+1"
+                    if res is True and not all(facts.get(x) == "small" for x in below_comps):
+                        ok, why = False, "is_hessenberg answers True without every component below the subdiagonal tested <= atol"
+                        break
+                    if res is False and not some_large(below_comps):
+                        ok, why = False, "is_hessenberg answers False although no component below the subdiagonal was found to exceed atol"
                         break
             if ok and seen_entries != set(below):
                 ok, why = False, f"{nm} inspects entries {sorted(seen_entries)} instead of all i > j+1 {below}"
@@ -219,6 +212,70 @@ def run(ctx):
     ctx.require_instances("C09.D1.accumulation", len([n for n in sizes if n > 2]))
     ctx.require_instances("C09.D1.reflectors", len([n for n in sizes if n > 2]))
     ctx.require_instances("C09.D2.cleanup", 4)
+
+
+def _facts(log, r, c):
+    """Per-component consequences of a path condition.  Recognised tests (either orientation, scalar or vectorised through
+    np.any / np.all and boolean masks):  |c| <= atol  and  |c| > atol  for a single component c of a single entry.
+    Returns (facts {(i,j,p): 'small'|'large'}, groups [('some-large'|'some-small', [(i,j,p)...])], error | None)."""
+    from qstatic.alg import is_unknown
+    facts, groups = {}, []
+
+    def leaf(cond):
+        """((i,j,p), value of 'small' when the condition is True) for a comparison of one component with the tolerance"""
+        canon = cond_canon(cond)
+        if canon is None or canon[0] not in ("le", "lt"):
+            return None
+        op, lo, hi = canon
+        flo, fhi = _find_entry(lo, r, c), _find_entry(hi, r, c)
+        if op == "le" and len(flo) == 1 and not fhi:
+            return flo[0], True            # |c| <= atol
+        if op == "lt" and len(fhi) == 1 and not flo:
+            return fhi[0], False           # atol < |c|
+        return None
+
+    def visit(cond, dec):
+        why = getattr(cond, "why", None)
+        if isinstance(why, tuple) and len(why) == 2 and why[0] in ("any", "all"):
+            elems = [e for e in why[1] if is_unknown(e)]
+            certain = (why[0] == "all" and dec) or (why[0] == "any" and not dec)
+            if certain or len(elems) == 1:
+                for e in elems:
+                    err = visit(e, dec)
+                    if err:
+                        return err
+                return None
+            comps = []
+            for e in elems:
+                lf = leaf(e)
+                if lf is None:
+                    return "a vectorised tolerance test does not compare single components with atol"
+                # 'all' failed: some element False; 'any' holds: some element True
+                comps.append((lf[0], lf[1] if dec else not lf[1]))
+            kinds = {sm for _, sm in comps}
+            if len(kinds) != 1:
+                return "a vectorised tolerance test mixes <= and > comparisons"
+            groups.append(("some-small" if kinds.pop() else "some-large", [x for x, _ in comps]))
+            return None
+        if isinstance(why, tuple) and len(why) == 2 and why[0] in ("truth", "not"):
+            inner = why[1]
+            if is_unknown(inner):
+                return visit(inner, dec if why[0] == "truth" else not dec)
+        lf = leaf(cond)
+        if lf is None:
+            return "unexpected condition (not a comparison of a single component of a single entry with atol: |c| <= atol / |c| > atol)"
+        comp, small_if_true = lf
+        val = "small" if (small_if_true == bool(dec)) else "large"
+        if facts.get(comp, val) != val:
+            return "contradictory decisions for one component"
+        facts[comp] = val
+        return None
+
+    for cond, dec in log:
+        err = visit(cond, dec)
+        if err:
+            return facts, groups, err
+    return facts, groups, None
 
 
 def _find_entry(poly, r, c):
